@@ -40,6 +40,29 @@ CHECKS = {
             "Trusted: Lean kernel, TEAL tokeniser spec, tabulate layout (checked on every produced line), CPython frames/executing/algosdk as "
             "runtime. One known finding (user file whose path contains a PyTeal-internal path fragment is misattributed).",
             "DESIGN.md Part II C15"),
+    "C04": ("proof",
+            "Lean 4: verified legality / control-flow checker `Flow.wf` run on the real TEAL of every explored program (soundness theorems over Avm.step: no run-off, no undefined label, no retsub in main, no illegal opcode/immediate), finite-table theorems by decide +kernel over opcode and field tables regenerated from the live modules",
+            "wf_sound_control / wf_sound_inside / wf_sound_illegal are proved for all programs, contexts and run lengths; the checker is run "
+            "on the real output of every generated program, of an opcode/field catalogue at every version and mode, and of all golden TEAL "
+            "files; `optable_agrees` / `fieldtable_agrees` compare the regenerated PyTeal tables with a hand-written AVM table entry by entry.",
+            "Trusted: Lean kernel, hand-written OpSpec (anchored by 185 golden TEAL files), Avm grammar and semantics, translate.py. Five "
+            "known findings (indices over 255, name newline, AssetCreator below v5, itxn_field fields not settable).",
+            "DESIGN.md Part II C04"),
+    "C08": ("proof",
+            "Lean 4 proof: the model of the router's dispatch conditions equals a specification written from the property text for every configuration and call (induction over the method list); full call matrix executed on the real approval/clear TEAL of generated routers",
+            "router_dispatch_code / router_dispatch_partial / router_dispatch_fails_iff are universal over configurations; real Router objects "
+            "are compiled for versions 6..10 and executed on the complete call matrix (selector, argument count, OnCompletion 0..5, "
+            "create/non-create), the handler that ran being observed through a distinguishing log.",
+            "Trusted: Lean kernel, transcription of router.py (tied by execution), AVM spec, algosdk selectors. One known finding (an all-ALL "
+            "MethodConfig also accepts OnCompletion=ClearState in the approval program).",
+            "DESIGN.md Part II C08"),
+    "C14": ("proof",
+            "Lean 4 proof: the model of MethodCall's emitted itxn_field sequence equals the ARC-4 calling-convention specification for every signature with at most 15 non-transaction arguments (counterexample beyond); real MethodCall expressions compiled, executed on the AVM spec and compared with an independent algosdk-based client encoder",
+            "methodcall_marshal_partial is universal over signatures, argument kinds and orders; the recorded inner group of the real TEAL "
+            "must equal the model's settings and an independent ARC-4 client encoding; malformed argument lists must be rejected at build time.",
+            "Trusted: Lean kernel, ARC-4 convention as written in the spec part (cross-checked with algosdk), inner-transaction semantics of "
+            "the AVM spec. One known finding (no tuple packing beyond 15 arguments).",
+            "DESIGN.md Part II C14"),
     "C10": ("proof",
             "Lean 4 proof: injectivity / requested-id / range / totality theorems on a model of assignScratchSlotsToSubroutines, correspondence on random and boundary slot layouts, marker programs executed on the AVM spec",
             "Universal theorems (any number of slots, any routine layout, any iteration order of the slot set) about the model of slot "
